@@ -12,7 +12,8 @@ From the abstract traces of StateUpdater::update_for_probe per probe-status cell
     the hop slot is ttl − 1.
  R6 recurrences, compared up to algebraic equivalence (exact polynomial normal form, rounding aside) with their definitions:
     total_time' = total_time + rtt; mean' = mean + (x − mean)/n'; m2' = m2 + (x − mean)(x − mean') (Welford), so that
-    stddev = sqrt(m2/(n−1)) is the sample standard deviation; best/worst = min/max; javg' = javg + (j − javg)/n'.
+    stddev = sqrt(m2/(n−1)) is the sample standard deviation; best/worst = min/max; javg' = javg + (j − javg)/n'; jitter = |rtt − previous rtt| iff there is
+    a previous one; jmax' = max(jmax, |rtt − previous rtt|).
  R8 StateUpdater::apply hands every element of round.probes to update_for_probe — no take / skip / filter, once each, in order — so the effect
     tables R1–R5 apply to every published probe.
  R7 is_forward_loss: true iff at least one later-TTL probe exists and all later ones are Awaited (Skipped slots do not count as answers).
@@ -288,6 +289,32 @@ def run(chk, tier):
             chk.ok('R6', fld, text)
         else:
             chk.fail('R6', fld, where, 'Hop.%s := %s, expected %s of the round-trip time' % (fld, sorted(vals)[:2], text), key='R6|%s' % fld)
+    # jitter = |rtt − previous rtt| iff there is a previous rtt (else none); jmax = max(jmax, that difference) — whether or not there is a previous rtt
+    # (the first sample's "difference" is taken against 0, as the code's own javg does)
+    Dj = r'unwrap_or_default\(call:SystemTime::duration_since\(p\.received, p\.sent\)\)'
+    K = r'const:f64\(4652007308841189376\)'        # 1000.0
+    LASTF = r'field:last\(%s\)' % HOPREF
+    for prev_known in (1, 0):
+        lms = (r'Mul\(call:Duration::as_secs_f64\(field:0\(%s\)\), %s\)' % (LASTF, K)) if prev_known else r'(?:default:f64\(\)|0|0\.0)'
+        J = r'call:Duration::from_secs_f64\(Div\(call:f64::abs\(Sub\(Mul\(call:Duration::as_secs_f64\(%s\), %s\), %s\)\), %s\)\)' % (Dj, K, lms, K)
+        rows = [t for t in tr['Complete'] if dict(t.dec).get('discr(%s)' % LASTF.replace('\\', '')) == prev_known or
+                any(re.fullmatch(r'discr\(%s\)' % LASTF, a) and v == prev_known for a, v in t.dec)]
+        jv = {v for t in rows for v in t.writes.get(('Hop', 'jitter'), [])[-1:]}
+        want_j = (r'Option::Some\(%s\)' % J) if prev_known else r'Option::None'
+        inst = 'jitter[%s]' % ('previous rtt' if prev_known else 'first rtt')
+        if rows and jv and all(re.fullmatch(want_j, v) for v in jv):
+            chk.ok('R6', inst, '|rtt − last| in ms → Duration' if prev_known else 'none')
+        else:
+            chk.fail('R6', inst, where, 'Hop.jitter := %s with %s; expected %s' % (sorted(jv)[:1] or 'no write', 'a previous round-trip time' if prev_known else 'no previous round-trip time',
+                                                                            'Some(|rtt − last rtt|)' if prev_known else 'None'), key='R6|jitter|%d' % prev_known)
+        mv = {v for t in rows for v in t.writes.get(('Hop', 'jmax'), [])[-1:]}
+        JM = r'field:0\(field:jmax\(%s\)\)' % HOPREF
+        want_m = r'Option::Some\((?:Max\(%s, %s\)|Max\(%s, %s\)|%s)\)' % (JM, J, J, JM, J)
+        inst = 'jmax[%s]' % ('previous rtt' if prev_known else 'first rtt')
+        if rows and mv and all(re.fullmatch(want_m, v) for v in mv):
+            chk.ok('R6', inst, 'max(jmax, |rtt − last|)')
+        else:
+            chk.fail('R6', inst, where, 'Hop.jmax := %s; expected the maximum of the old value and |rtt − last rtt|' % (sorted(mv)[:1] or 'no write'), key='R6|jmax|%d' % prev_known)
     tt = [a for t in tr['Complete'] for a in t.call_args('Duration::add_assign')] + [a for t in tr['Complete'] for a in t.call_args('AddAssign>::add_assign')]
     D = r'unwrap_or_default\(call:SystemTime::duration_since\(p\.received, p\.sent\)\)'
     if tt and all(re.fullmatch(r'field:total_time\(%s\)' % HOPREF, a[0]) and re.fullmatch(D, a[1]) for a in tt):
